@@ -402,7 +402,7 @@ impl AdjacencyMap {
     @after `let order = self.order();`
         broadcast use lemma_map_verts_contains;
         proof { assert(order * (order - 1) <= usize::MAX) by (nonlinear_arith) requires 1 <= order <= 0x1_0000_0000; }
-    @before `return false;`
+    @before #1 `return false;`
         proof {
             // fewer arcs than unordered pairs: some pair is not joined
             lemma_rows_sum_bound(*self, order as int);
@@ -495,7 +495,7 @@ impl AdjacencyMap {
             lemma_contiguous_key_seq(*self);
             assert(order * (order - 1) <= usize::MAX) by (nonlinear_arith) requires 1 <= order <= 0x1_0000_0000;
         }
-    @before `return false;`
+    @before #1 `return false;`
         proof {
             // fewer arcs than unordered pairs: some pair is not joined
             lemma_rows_sum_bound(*self, order as int);
@@ -595,7 +595,7 @@ impl AdjacencyMap {
     @after `let order = self.order();`
         broadcast use lemma_map_verts_contains;
         proof { assert(order * (order - 1) <= usize::MAX) by (nonlinear_arith) requires 1 <= order <= 0x1_0000_0000; }
-    @before `return false;`
+    @before #1 `return false;`
         proof {
             // the number of arcs differs from the number of unordered pairs: some pair is not joined exactly once
             lemma_rows_sum_bound(*self, order as int);
@@ -688,7 +688,7 @@ impl AdjacencyMap {
             lemma_contiguous_key_seq(*self);
             assert(order * (order - 1) <= usize::MAX) by (nonlinear_arith) requires 1 <= order <= 0x1_0000_0000;
         }
-    @before `return false;`
+    @before #1 `return false;`
         proof {
             // the number of arcs differs from the number of unordered pairs: some pair is not joined exactly once
             lemma_rows_sum_bound(*self, order as int);
